@@ -12,7 +12,7 @@ Lemma sd_gather_complete_first e moved rtx :
   snd (sd_gather e moved rtx) = [SdShutdownComplete] /\
   sd_state (fst (sd_gather e moved rtx)) = c_closed /\ sd_down (fst (sd_gather e moved rtx)) = true.
 Proof.
-  destruct e as [st wsd wsa wsc scp t2 pend infl ack ret down]. sd_red. intros -> ->.
+  destruct e as [st wsd wsa wsc scp done t2 pend infl ack ret down]. sd_red. intros -> ->.
   unfold sd_gather, sd_gather_shutdown, sd_close. sd_red. destruct ret; sd_red; repeat split.
 Qed.
 
@@ -21,7 +21,7 @@ Lemma sd_gather_ack_first e moved rtx :
   sd_down e = false -> sd_wsc e = false -> sd_state e = c_shutdownAckSent -> sd_wsa e = true ->
   snd (sd_gather e moved rtx) = [SdShutdownAck].
 Proof.
-  destruct e as [st wsd wsa wsc scp t2 pend infl ack ret down]. sd_red. intros -> -> -> ->.
+  destruct e as [st wsd wsa wsc scp done t2 pend infl ack ret down]. sd_red. intros -> -> -> ->.
   unfold sd_gather, sd_gather_shutdown. sd_red. sd_consts. cbn [Z.eqb Pos.eqb]. sd_red. reflexivity.
 Qed.
 
@@ -30,7 +30,7 @@ Lemma sd_gather_shutdown_first e moved rtx :
   sd_down e = false -> sd_wsc e = false -> sd_wsa e = false -> sd_state e = c_shutdownSent -> sd_wsd e = true ->
   snd (sd_gather e moved rtx) = (if sd_ack e =? sd_ackImmediate then [SdSack] else []) ++ [SdShutdown].
 Proof.
-  destruct e as [st wsd wsa wsc scp t2 pend infl ack ret down]. sd_red. intros -> -> -> -> ->.
+  destruct e as [st wsd wsa wsc scp done t2 pend infl ack ret down]. sd_red. intros -> -> -> -> ->.
   unfold sd_gather, sd_gather_shutdown, sd_gather_sack, sd_close. sd_consts. sd_red.
   sd_split; sd_red; try reflexivity; try lia.
 Qed.
@@ -50,7 +50,7 @@ Lemma sd_gather_order e moved rtx :
   (* no user data leaves an endpoint in SHUTDOWN-SENT, SHUTDOWN-ACK-SENT or CLOSED *)
   (In SdData (snd (sd_gather e moved rtx)) -> sd_sends_data (sd_state e) = true).
 Proof.
-  destruct e as [st wsd wsa wsc scp t2 pend infl ack ret down].
+  destruct e as [st wsd wsa wsc scp done t2 pend infl ack ret down].
   unfold sd_gather, sd_gather_shutdown, sd_gather_sack, sd_gather_data, sd_advance_after_drain, sd_has_data, sd_close, sd_sends_data.
   sd_red. sd_consts.
   destruct down; [cbn; split; [reflexivity|intros []]|].
